@@ -1,1 +1,415 @@
-fn main() {}
+//! Harness for the seglog crate (C17, C18).
+//!   replay <plans.ndjson>   SegLog.tla behaviours replayed on a real Writer and long-lived
+//!                           Readers, under several concrete layouts
+//!   faults <classes.ndjson> spec-driven fault enumeration on single records
+use std::collections::BTreeMap;
+use std::path::{Path, PathBuf};
+
+use hcommon::{Report, catch, read_ndjson};
+use serde_json::{Value, json};
+
+use seglog::read::{ReadError, ReadHint, Reader};
+use seglog::write::{WriteError, Writer};
+
+mod faults;
+
+fn main() {
+    hcommon::quiet_panics();
+    let args: Vec<String> = std::env::args().collect();
+    let mut rep = Report::new();
+    match args[1].as_str() {
+        "replay" => replay(&mut rep, &args[2]),
+        "faults" => faults::run(&mut rep, &args[2]),
+        other => panic!("unknown subcommand {other}"),
+    }
+    rep.finish();
+}
+
+pub fn scratch(name: &str) -> PathBuf {
+    let d = std::env::current_dir().unwrap().join(format!("seglog-{}-{}", std::process::id(), name));
+    let _ = std::fs::remove_dir_all(&d);
+    std::fs::create_dir_all(&d).unwrap();
+    d
+}
+
+// ---------------------------------------------------------------------------
+// concrete layouts for the abstract cells of SegLog.tla
+
+#[derive(Clone, Copy, Debug)]
+pub struct Layout {
+    pub name: &'static str,
+    /// data length of a record of 1 cell / 2 cells
+    pub len1: usize,
+    pub len2: usize,
+}
+
+pub const LAYOUTS: &[Layout] = &[
+    Layout { name: "small", len1: 40, len2: 300 },
+    Layout { name: "optimistic-boundary", len1: 2040, len2: 2048 },
+    Layout { name: "fallback", len1: 1500, len2: 3900 },
+    Layout { name: "large", len1: 5000, len2: 70_000 },
+    Layout { name: "empty-and-threshold", len1: 0, len2: 128 },
+];
+
+pub fn data_for(id: u64, len: usize, compressible: bool) -> Vec<u8> {
+    let mut v = Vec::with_capacity(len);
+    let mut x = id.wrapping_mul(0x9E37_79B9_7F4A_7C15) | 1;
+    for i in 0..len {
+        if compressible {
+            v.push(b'a' + ((id as usize + i / 37) % 7) as u8);
+        } else {
+            x ^= x << 13;
+            x ^= x >> 7;
+            x ^= x << 17;
+            v.push((x >> 24) as u8 | 1); // never all-zero
+        }
+    }
+    v
+}
+
+pub fn header_for<const H: usize>(id: u64, hv: u64) -> [u8; H] {
+    let mut h = [0u8; H];
+    for (i, b) in h.iter_mut().enumerate() {
+        *b = (id as u8).wrapping_mul(31).wrapping_add(hv as u8 * 7).wrapping_add(i as u8) | 0x10;
+    }
+    h
+}
+
+const START: u64 = 64;
+const SEG_SIZE: usize = 1 << 20;
+
+struct Rec {
+    id: u64,
+    hv: u64,
+    real_start: u64,
+    real_len: u64,
+    data_len: usize,
+    compressible: bool,
+}
+
+struct World<const H: usize> {
+    path: PathBuf,
+    layout: Layout,
+    writer: Option<Writer<H>>,
+    readers: Vec<Option<Reader<H>>>,
+    /// abstract start offset -> latest physical record written there
+    recs: BTreeMap<u64, Rec>,
+    /// abstract offset -> real offset for every boundary seen so far
+    abs2real: BTreeMap<u64, u64>,
+    abs_wofs: u64,
+    /// boundaries of the current logical log (abstract offsets)
+    bounds: std::collections::BTreeSet<u64>,
+}
+
+#[derive(Debug, PartialEq)]
+enum Got {
+    Ok { id: u64, hv: u64, compressed: bool },
+    None(String),
+    Foreign(String),
+}
+
+impl<const H: usize> World<H> {
+    fn new(dir: &Path, layout: Layout) -> Self {
+        let path = dir.join("seg.log");
+        let _ = std::fs::remove_file(&path);
+        let writer = Writer::<H>::create(&path, SEG_SIZE, START).unwrap();
+        let mut w = World {
+            path,
+            layout,
+            writer: Some(writer),
+            readers: vec![],
+            recs: BTreeMap::new(),
+            abs2real: BTreeMap::new(),
+            abs_wofs: 0,
+            bounds: [0u64].into_iter().collect(),
+        };
+        w.abs2real.insert(0, START);
+        w.open_readers();
+        w
+    }
+
+    fn open_readers(&mut self) {
+        let fo = self.writer.as_ref().unwrap().flushed_offset();
+        self.readers = (0..2).map(|_| Some(Reader::<H>::open(&self.path, Some(fo.clone())).unwrap())).collect();
+    }
+
+    fn real_of(&self, abs: u64) -> u64 {
+        if let Some(r) = self.abs2real.get(&abs) {
+            return *r;
+        }
+        // inside some record (or beyond everything): a deliberately misaligned offset
+        match self.abs2real.range(..abs).next_back() {
+            Some((_, r)) => r + 5,
+            None => START + 5,
+        }
+    }
+
+    fn classify(&self, res: Result<seglog::read::Record<'_, H>, ReadError>, at_real: u64) -> Got {
+        match res {
+            Err(e) => Got::None(format!("{e}")),
+            Ok(rec) => {
+                for r in self.recs.values() {
+                    if r.real_start == at_real
+                        && rec.header.as_ref() == header_for::<H>(r.id, r.hv).as_slice()
+                        && rec.data.as_ref() == data_for(r.id, r.data_len, r.compressible).as_slice()
+                        && rec.len as u64 == r.real_len
+                        && rec.offset == at_real
+                    {
+                        return Got::Ok { id: r.id, hv: r.hv, compressed: rec.compressed_data.is_some() };
+                    }
+                }
+                Got::Foreign(format!(
+                    "offset {} len {} header {:02x?} data[..8] {:02x?}",
+                    rec.offset,
+                    rec.len,
+                    &rec.header[..H.min(8)],
+                    &rec.data[..rec.data.len().min(8)]
+                ))
+            }
+        }
+    }
+
+    fn check_read(&self, op: &Value, got: Got) -> Result<(), String> {
+        let want = &op["res"];
+        match (want["st"].as_str().unwrap(), &got) {
+            ("none", Got::None(_)) => Ok(()),
+            ("ok", Got::Ok { id, hv, .. }) if *id == want["id"].as_u64().unwrap() && *hv == want["hv"].as_u64().unwrap() => Ok(()),
+            _ => Err(format!("spec prescribes {want}, real read gave {got:?}")),
+        }
+    }
+
+    /// executes one step; Err(description) on divergence from the specification
+    fn step(&mut self, op: &Value) -> Result<(), String> {
+        let kind = op["op"].as_str().unwrap();
+        match kind {
+            "append" => {
+                let n = op["n"].as_u64().unwrap();
+                let c = op["c"].as_bool().unwrap();
+                let id = op["id"].as_u64().unwrap();
+                let at = op["at"].as_u64().unwrap();
+                let len = if n == 1 { self.layout.len1 } else { self.layout.len2 };
+                let data = data_for(id, len, c);
+                let want_off = self.real_of(at);
+                let w = self.writer.as_mut().unwrap();
+                let before = w.write_offset();
+                let (off, total) = w.append(&header_for::<H>(id, 1), &data).map_err(|e| format!("append failed: {e}"))?;
+                if off != before || off != want_off || w.write_offset() != off + total as u64 {
+                    return Err(format!("append returned offset {off}, expected {want_off} (write_offset before {before})"));
+                }
+                // forget physical records this one overwrites logically (same abstract start or beyond)
+                self.recs.insert(at, Rec { id, hv: 1, real_start: off, real_len: total as u64, data_len: len, compressible: c });
+                self.abs2real.insert(at + n, off + total as u64);
+                self.abs_wofs = at + n;
+                self.bounds.retain(|b| *b <= at);
+                self.bounds.insert(at + n);
+                Ok(())
+            }
+            "append_full" => {
+                let w = self.writer.as_mut().unwrap();
+                let remaining = w.remaining_bytes() as usize;
+                let before = w.write_offset();
+                let mut data = data_for(999, remaining + 4096, false); // head + header make it exceed the space left
+                let mut x = 0x2545F4914F6CDD1Du64;
+                for b in data.iter_mut() {
+                    x ^= x << 13;
+                    x ^= x >> 7;
+                    x ^= x << 17;
+                    *b = (x >> 32) as u8; // incompressible even with compression enabled
+                }
+                match w.append(&header_for::<H>(999, 1), &data) {
+                    Err(WriteError::SegmentFull { .. }) if w.write_offset() == before => Ok(()),
+                    other => Err(format!("oversized append: {other:?}, write_offset {} -> {}", before, w.write_offset())),
+                }
+            }
+            "flush" => self.writer.as_mut().unwrap().flush_writer().map_err(|e| e.to_string()),
+            "sync" => {
+                let ret = self.writer.as_mut().unwrap().sync().map_err(|e| e.to_string())?;
+                let want = self.real_of(op["ret"].as_u64().unwrap());
+                if ret != want { Err(format!("sync returned {ret}, spec {want}")) } else { Ok(()) }
+            }
+            "set_len" => {
+                let o = op["o"].as_u64().unwrap();
+                let real = self.real_of(o);
+                let w = self.writer.as_mut().unwrap();
+                let old_end = w.write_offset();
+                w.set_len(real).map_err(|e| e.to_string())?;
+                // environment assumption of SegLog!SetLen: the truncated tail reads as zeros
+                if old_end > real + 8 {
+                    use std::os::unix::fs::FileExt;
+                    w.file().write_all_at(&vec![0u8; (old_end - real - 8) as usize], real + 8).unwrap();
+                }
+                if w.write_offset() != real || w.flushed_offset().load() != real {
+                    return Err(format!("after set_len({real}): write_offset {} flushed {}", w.write_offset(), w.flushed_offset().load()));
+                }
+                self.abs_wofs = o;
+                self.bounds.retain(|b| *b <= o);
+                Ok(())
+            }
+            "toggle" => {
+                let w = self.writer.as_mut().unwrap();
+                if op["on"].as_bool().unwrap() { w.enable_compression() } else { w.disable_compression() }
+                Ok(())
+            }
+            "reopen" => {
+                self.readers.clear();
+                drop(self.writer.take()); // BufWriter flushes on drop, nothing is synced
+                let w = Writer::<H>::open(&self.path, SEG_SIZE, START).map_err(|e| format!("open failed: {e}"))?;
+                let want = self.real_of(op["wofs"].as_u64().unwrap());
+                let got = w.write_offset();
+                self.abs_wofs = op["wofs"].as_u64().unwrap();
+                let aw = self.abs_wofs;
+                self.bounds.retain(|b| *b <= aw);
+                self.writer = Some(w);
+                self.open_readers();
+                if got != want { Err(format!("reopened writer resumes at {got}, spec says {want}")) } else { Ok(()) }
+            }
+            "read_random" | "read_seq" => {
+                let r = op["r"].as_u64().unwrap() as usize - 1;
+                let real = self.real_of(op["o"].as_u64().unwrap());
+                let hint = if kind == "read_seq" { ReadHint::Sequential } else { ReadHint::Random };
+                let mut rd = self.readers[r].take().unwrap();
+                let got = {
+                    let res = rd.read_record(real, hint);
+                    self.classify(res, real)
+                };
+                self.readers[r] = Some(rd);
+                self.check_read(op, got)
+            }
+            "iter" => {
+                let r = op["r"].as_u64().unwrap() as usize - 1;
+                let real = self.real_of(op["o"].as_u64().unwrap());
+                let want: Vec<(u64, u64)> = op["ids"].as_array().unwrap().iter().zip(op["hvs"].as_array().unwrap())
+                    .map(|(a, b)| (a.as_u64().unwrap(), b.as_u64().unwrap())).collect();
+                let mut rd = self.readers[r].take().unwrap();
+                let mut got = vec![];
+                let mut err = None;
+                {
+                    let mut pos = real;
+                    let mut it = rd.iter(real);
+                    loop {
+                        match it.next_record() {
+                            Ok(Some(rec)) => {
+                                let len = rec.len as u64;
+                                match self.classify(Ok(rec), pos) {
+                                    Got::Ok { id, hv, .. } => got.push((id, hv)),
+                                    other => {
+                                        err = Some(format!("iteration yielded {other:?} at {pos}"));
+                                        break;
+                                    }
+                                }
+                                pos += len;
+                            }
+                            Ok(None) => break,
+                            Err(e) => {
+                                // starting inside a record (not a boundary) reads garbage; reporting it
+                                // as corruption is as good as ending the iteration
+                                let misaligned = !self.bounds.contains(&op["o"].as_u64().unwrap());
+                                if !(misaligned && got.is_empty()) {
+                                    err = Some(format!("iteration failed at {pos}: {e}"));
+                                }
+                                break;
+                            }
+                        }
+                    }
+                }
+                self.readers[r] = Some(rd);
+                if let Some(e) = err {
+                    return Err(e);
+                }
+                if got != want { Err(format!("iteration from {real} yielded (id,hv) {got:?}, spec {want:?}")) } else { Ok(()) }
+            }
+            "replace" => {
+                let r = op["r"].as_u64().unwrap() as usize - 1;
+                let o = op["o"].as_u64().unwrap();
+                let real = self.real_of(o);
+                let want_ok = op["ok"].as_bool().unwrap();
+                let (id, hv) = if want_ok { (op["id"].as_u64().unwrap(), op["hv"].as_u64().unwrap()) } else { (998, 1) };
+                let res = self.readers[r].as_mut().unwrap().replace_header(real, header_for::<H>(id, hv));
+                match (want_ok, res) {
+                    (true, Ok(())) => {
+                        self.recs.get_mut(&o).unwrap().hv = hv;
+                        Ok(())
+                    }
+                    (false, Err(_)) => Ok(()),
+                    (w, r) => Err(format!("replace_header at {real}: spec ok={w}, real {r:?}")),
+                }
+            }
+            other => panic!("unknown op {other}"),
+        }
+    }
+}
+
+fn run_plan<const H: usize>(dir: &Path, layout: Layout, plan: &[Value]) -> Option<(usize, String)> {
+    let mut w = World::<H>::new(dir, layout);
+    for (k, op) in plan.iter().enumerate() {
+        let res = catch(std::panic::AssertUnwindSafe(|| w.step(op)));
+        match res {
+            Ok(Ok(())) => {}
+            Ok(Err(e)) => return Some((k, e)),
+            Err(p) => return Some((k, format!("panic: {p}"))),
+        }
+    }
+    None
+}
+
+fn key_for(op: &Value, msg: &str) -> String {
+    let kind = op["op"].as_str().unwrap();
+    let what = if msg.starts_with("panic") {
+        "panic"
+    } else if msg.contains("Foreign") || msg.contains("spec prescribes {\"st\":\"none\"}") {
+        "stale-or-unflushed-data"
+    } else {
+        "mismatch"
+    };
+    format!("c18:{kind}:{what}")
+}
+
+fn replay(rep: &mut Report, plans: &str) {
+    let plans = read_ndjson(plans);
+    let dir = scratch("replay");
+    let quick = hcommon::tier_quick();
+    let mut steps = 0u64;
+    let mut ops: BTreeMap<String, u64> = BTreeMap::new();
+    let mut reported = std::collections::BTreeSet::new();
+    for (pi, plan) in plans.iter().enumerate() {
+        let plan = plan.as_array().unwrap();
+        // quick: rotate layouts over the plans; thorough: every plan under every layout
+        let lays: Vec<(usize, &Layout)> = LAYOUTS.iter().enumerate().filter(|(li, _)| !quick || pi % LAYOUTS.len() == *li).collect();
+        for (li, lay) in lays {
+            let h8 = (pi + li) % 2 == 1;
+            let bad = if h8 { run_plan::<8>(&dir, *lay, plan) } else { run_plan::<1>(&dir, *lay, plan) };
+            rep.eval(1);
+            steps += plan.len() as u64;
+            if let Some((k, msg)) = bad {
+                let key = key_for(&plan[k], &msg);
+                if reported.insert((key.clone(), lay.name)) || rep.violations < 5 {
+                    rep.violation(
+                        &key,
+                        json!({"step": k, "op": plan[k], "problem": msg, "layout": lay.name, "H": if h8 { 8 } else { 1 }}),
+                        json!({"layout": lay.name, "H": if h8 { 8 } else { 1 }, "behaviour": plan}),
+                    );
+                } else {
+                    rep.violations += 1;
+                }
+            }
+        }
+        for op in plan {
+            *ops.entry(op["op"].as_str().unwrap().to_string()).or_default() += 1;
+        }
+        if pi < 2 {
+            rep.sample(json!(plan.iter().map(|o| {
+                let mut s = o["op"].as_str().unwrap().to_string();
+                if let Some(x) = o.get("o") { s += &format!("@{x}"); }
+                s
+            }).collect::<Vec<_>>()));
+        }
+    }
+    let _ = std::fs::remove_dir_all(&dir);
+    rep.set("behaviours", json!(plans.len()));
+    rep.set("steps_replayed", json!(steps));
+    rep.set("ops", json!(ops));
+    rep.set("layouts", json!(LAYOUTS.iter().map(|l| l.name).collect::<Vec<_>>()));
+    for k in ops.keys() {
+        rep.class(k.clone());
+    }
+}
